@@ -655,6 +655,25 @@ pub fn c10_scenarios(ns: &[u64], fut: bool) -> Vec<Scn> {
                 vec![opv(TrySend, S0, 1), opv(TrySend, S0, 2)],
             ];
             out.push(s);
+            // the adding handle receives right after: a writer that read the old
+            // list must not take the parent's new position for the minimum
+            let mut s = Scn::new(&name("c10-addstream-then-recv-vs-producer", &stn), cfg);
+            s.prefix = prep(st, n, &[R0]);
+            s.threads = vec![
+                vec![opd(AddStream, R0, R2), op(TryRecv, R0), op(TryRecv, R0)],
+                vec![opv(TrySend, S0, 1), opv(TrySend, S0, 2)],
+            ];
+            out.push(s);
+            // two streams are added at the same time (one CAS loses)
+            let mut s = Scn::new(&name("c10-two-addstreams-vs-producer", &stn), cfg);
+            s.prefix = prep(st, n, &[R0]);
+            s.prefix.push(opd(CloneH, R0, R1));
+            s.threads = vec![
+                vec![opd(AddStream, R0, R2), op(TryRecv, R0)],
+                vec![opd(AddStream, R1, R3)],
+                vec![opv(TrySend, S0, 1), opv(TrySend, S0, 2)],
+            ];
+            out.push(s);
             // another stream consumes meanwhile
             let mut s = Scn::new(&name("c10-addstream-vs-other-stream", &stn), cfg);
             s.prefix = vec![opd(AddStream, R0, R1)];
@@ -693,10 +712,19 @@ pub fn c11_scenarios(ns: &[u64], fut: bool) -> Vec<Scn> {
             s.prefix.extend((0..n).map(|_| op(TryRecv, R0)));
             s.threads = vec![
                 vec![op(leave, R1)],
-                vec![opv(SendRetry, S0, 1)],
+                vec![opv(if fut { SinkSend } else { SendRetry }, S0, 1)],
                 vec![op(TryRecv, R0)],
             ];
             out.push(s);
+            if fut {
+                // nothing else happens: only the removal can wake the parked sender
+                let mut s = Scn::new(&name("c11-slowest-leaves-vs-parked-sink", &ln), cfg);
+                s.prefix = vec![opd(AddStream, R0, R1)];
+                s.prefix.extend(prep(St::Full, n, &[R0]));
+                s.prefix.extend((0..n).map(|_| op(TryRecv, R0)));
+                s.threads = vec![vec![op(leave, R1)], vec![opv(SinkSend, S0, 1)]];
+                out.push(s);
+            }
             // fastest stream leaves: backpressure of the slow one must stay
             let mut s = Scn::new(&name("c11-fastest-leaves-keeps-backpressure", &ln), cfg);
             s.prefix = vec![opd(AddStream, R0, R1)];
@@ -928,6 +956,13 @@ pub fn c14_scenarios(ns: &[u64], spins: &[(usize, usize)]) -> Vec<Scn> {
                 vec![op(DropH, R1)],
             ];
             out.push(s);
+            // the same, leaving through unsubscribe()
+            let mut s = Scn::new("c14-sink-parked-vs-stream-unsubscribed", cfg);
+            s.prefix = vec![opd(AddStream, R0, R1)];
+            s.prefix.extend(prep(St::Full, n, &[R0]));
+            s.prefix.extend((0..n).map(|_| op(TryRecv, R0)));
+            s.threads = vec![vec![opv(SinkSend, S0, 1)], vec![op(Unsub, R1)]];
+            out.push(s);
             // last sender dropped while stream tasks are parked
             let mut s = Scn::new("c14-streams-parked-vs-last-sender-drop", cfg);
             s.prefix = vec![opd(CloneH, R0, R1)];
@@ -1009,6 +1044,58 @@ pub fn c16_scenarios(ns: &[u64]) -> Vec<Scn> {
             out.push(s);
         }
     }
+    // two handles retire objects at the same time just as the retirement list
+    // crosses its threshold, while a writer is in the middle of a list scan
+    for pre_cycles in [3usize, 4, 5] {
+        let cfg = q(Flavour::B, 1, WaitK::Busy);
+        let mut s = Scn::new(&name("c16-two-retirers-at-threshold-vs-scan", &format!("pre{}", pre_cycles)), cfg);
+        s.prefix = prep(St::Full, 1, &[R0]);
+        for _ in 0..pre_cycles {
+            s.prefix.push(opd(AddStream, R0, R4));
+            s.prefix.push(op(DropH, R4));
+        }
+        s.prefix.push(opd(AddStream, R0, R1));
+        s.prefix.push(opd(AddStream, R0, R2));
+        s.threads = vec![
+            vec![op(DropH, R1)],
+            vec![op(DropH, R2)],
+            vec![opv(TrySend, S0, 1)],
+        ];
+        out.push(s);
+    }
+    // a queue with room: the writer both succeeds and (on its second send)
+    // scans the stream list while streams come and go and a handle is cloned
+    // and dropped in the middle of a reclamation cycle
+    for pre_cycles in [6usize, 7, 10] {
+        let cfg = q(Flavour::B, 4, WaitK::Busy);
+        let mut churn = Vec::new();
+        for _ in 0..pre_cycles {
+            churn.push(opd(AddStream, R0, R4));
+            churn.push(op(DropH, R4));
+        }
+        let mut s = Scn::new(&name("c16-churn-vs-traffic", &format!("pre{}", pre_cycles)), cfg);
+        s.prefix = prep(St::WrappedOne, 4, &[R0]);
+        s.prefix.extend(churn.clone());
+        s.prefix.push(opd(CloneH, R0, R1));
+        s.threads = vec![
+            vec![opd(AddStream, R1, R2), op(DropH, R2), opd(CloneH, R1, R3), op(DropH, R3)],
+            vec![opv(TrySend, S0, 1), opv(TrySend, S0, 2), opv(TrySend, S0, 3), opv(TrySend, S0, 4)],
+            vec![op(TryRecv, R0), op(TryRecv, R0)],
+        ];
+        out.push(s);
+        // sender handles come and go while a stream is being removed
+        let mut s = Scn::new(&name("c16-sender-churn-vs-stream-removal", &format!("pre{}", pre_cycles)), cfg);
+        s.prefix = prep(St::One, 4, &[R0]);
+        s.prefix.extend(churn.clone());
+        s.prefix.push(opd(AddStream, R0, R1));
+        s.prefix.push(opd(CloneH, S0, S2));
+        s.threads = vec![
+            vec![opd(CloneH, S2, S1), opv(TrySend, S1, 11), op(DropH, S1)],
+            vec![op(TryRecv, R1), op(DropH, R1)],
+            vec![opv(TrySend, S0, 1), opv(TrySend, S0, 2)],
+        ];
+        out.push(s);
+    }
     for s in out.iter_mut() {
         s.tags = &["C16"];
         s.hang_prop = "C16";
@@ -1083,6 +1170,33 @@ pub fn c18_scenarios(ns: &[u64]) -> Vec<Scn> {
                     s.threads = threads;
                     out.push(s);
                 }
+            }
+        }
+    }
+    // consumers of a shared stream frozen anywhere (also between pin and unpin)
+    // while a sender with a sibling tries to send / a third consumer to receive
+    for &n in ns {
+        for w in [WaitK::Busy, WaitK::Yield(0, 0)] {
+            let cfg = q(Flavour::B, n, w);
+            for probe in [TrySend, TryRecv] {
+                let mut s = Scn::new(&name("c18-solo-vs-pinned-slot", &format!("{:?}", probe)), cfg);
+                s.prefix = vec![opd(CloneH, S0, S1)];
+                s.prefix.extend(prep(St::Full, n, &[R0]));
+                s.prefix.push(opd(CloneH, R0, R1));
+                let mut threads = vec![
+                    vec![op(TryRecv, R0), op(TryRecv, R0)],
+                    vec![op(TryRecv, R1)],
+                ];
+                if probe == TrySend {
+                    threads.push(vec![opv(TrySend, S1, 21)]);
+                } else {
+                    s.prefix.push(opd(CloneH, R0, R2));
+                    threads.push(vec![op(TryRecv, R2)]);
+                }
+                s.slow = 1;
+                s.solo = Some(2);
+                s.threads = threads;
+                out.push(s);
             }
         }
     }
@@ -1231,6 +1345,12 @@ pub fn tasks(prop: &str, tier: Tier) -> Vec<Task> {
             push_all(&mut t, trio_scenarios(ns_q, true, traffic_tags), thorough);
         }
         "C16" => push_all(&mut t, c16_scenarios(if thorough { ns_q } else { &[1] }), thorough),
+        "C17" => {
+            // memory after teardown of concurrent executions with handle churn
+            push_all(&mut t, c16_scenarios(&[1]), thorough);
+            push_all(&mut t, c12_scenarios(ns_q), thorough);
+            push_all(&mut t, c05_scenarios(&[1]), thorough);
+        }
         "C18" => push_all(&mut t, c18_scenarios(ns), thorough),
         _ => {}
     }
